@@ -105,8 +105,17 @@ class _StrSub(str):
     pass
 
 
+class _HasToIcal:
+    """a typed parameter value of the caller's own (as vBoolean for RSVP is of the library): anything with to_ical()"""
+    def __init__(self, text):
+        self.text = text
+
+    def to_ical(self):
+        return self.text.encode("utf-8")
+
+
 PTYPES = {"str": str, "vText": lambda x: __import__("icalendar").vText(x), "vCalAddress": lambda x: __import__("icalendar").vCalAddress(x),
-          "vUri": lambda x: __import__("icalendar").vUri(x), "strsub": _StrSub}
+          "vUri": lambda x: __import__("icalendar").vUri(x), "strsub": _StrSub, "to_ical-object": lambda x: _HasToIcal(x)}
 
 
 def exp_params(pm):
@@ -179,6 +188,8 @@ def judge(case):
         # the same characters as a typed string (SENT-BY/DELEGATED-* take vCalAddress, ALTREP/DIR a vUri; any str subclass): the
         # type of a parameter value does not change what is written for its characters
         wrap = PTYPES[ptypes[i_]] if i_ < len(ptypes) else str
+        if isinstance(x, list) and i_ < len(ptypes) and ptypes[i_] == "to_ical-object":
+            wrap = str           # lists take strings
         P[n] = [wrap(e) for e in x] if isinstance(x, list) else wrap(x)
     if churn:
         P.to_ical()
@@ -385,9 +396,11 @@ REGIONS = {"rcb-line": region_rcb}
 
 FRAGS = ["\\", ";", ":", ",", '"', "%", "=", "^", "\r", "\n", "\t", "\x00", "\x7f", " ", "BEGIN:VEVENT", "END:VCALENDAR", "END:VEVENT",
          "\r\n ", "\r\nBEGIN:VTODO\r\n", "\nEND:VEVENT\n", "%3A", "%5C", "\\n", "\\;", "a", "b", "1", "x-y", "é", " "]
+# the percent escapes of RC-B in lower and mixed case (ordinary URL-encoded text, not the upper-case forms), and their neighbours
+FRAGS += ["%2c", "%3a", "%3b", "%5c", "%2f", "%3a%2f%2f", "%25", "%253A", "%22", "%0A", "%0d%0a", "%2C".lower() + "%3A"]
 hostile_text = st.lists(st.one_of(st.sampled_from(FRAGS), st.characters(blacklist_categories=("Cs",))), max_size=8).map("".join)
 mild_text = st.lists(st.sampled_from(["\\", ";", ":", ",", '"', "%", "=", "^", " ", "BEGIN:VEVENT", "END:VCALENDAR", "a", "b", "\t",
-                                      "mailto:", "http://x/", "é", "'"]), max_size=8).map("".join)
+                                      "mailto:", "http://x/", "é", "'", "%2c", "%3a", "%3b", "%5c", "%22", "?q=is%3apr"]), max_size=8).map("".join)
 anytext = st.one_of(hostile_text, mild_text, mild_text)
 token = st.lists(st.sampled_from(list("abcdxyzABCXYZ0189-")), min_size=1, max_size=10).map("".join)
 RESERVED_PROP = {"BEGIN", "END"}
@@ -437,7 +450,7 @@ def cases(draw):
         v = [draw(st.integers(1990, 2030)), draw(st.integers(1, 12)), draw(st.integers(1, 28)), draw(st.integers(0, 23)),
              draw(st.integers(0, 59)), draw(st.integers(0, 59))]
     return {"path": path, "name": name, "params": pm, "kind": kind, "value": v, "churn": draw(st.sampled_from([None, None, None, "del", "pop", "clear"])),
-            "ptypes": [draw(st.sampled_from(["str", "str", "vText", "vCalAddress", "vUri", "strsub"])) for _ in pm]}
+            "ptypes": [draw(st.sampled_from(["str", "str", "vText", "vCalAddress", "vUri", "strsub", "to_ical-object"])) for _ in pm]}
 
 
 INJ = ["\r", "\n", ":", ";", ",", '"', "\\", "BEGIN:VTODO", "a"]
